@@ -296,6 +296,12 @@ func (in *c10inst) Apply(opi int) *lib.Violation {
 			return v
 		}
 		if !homeOff {
+			if old := in.rules[op.Id]; old != nil && in.liveRule(op.Id) == nil && in.home == in.loc {
+				// the id held a rule that has expired: it is gone, and its flag with it;
+				// this is a fresh rule, not an overwrite
+				delete(in.dis, op.Id)
+				delete(in.unk, op.Id)
+			}
 			in.rules[op.Id] = &c10rule{ver: op.Ver, expires: op.Kind == "addexp"}
 		}
 	case "rem":
@@ -315,6 +321,11 @@ func (in *c10inst) Apply(opi int) *lib.Violation {
 			}
 		}
 	case "enable", "disable":
+		if in.liveRule(op.Id) == nil && !in.locOff {
+			// toggling an id that holds no live rule (it expired): what that means for a
+			// rule added later is not specified (the path filter only knows removals)
+			return &lib.Violation{Signature: "prune", Prune: true}
+		}
 		err := in.loc.EnableRule(in.ctx, op.Id, op.Kind == "enable")
 		if in.locOff {
 			if !isDisabledErr(err) {
